@@ -50,3 +50,30 @@ package set
 //@   ensures[C03] appended: (=> (not present) (and (select (MapC<Int~Slice>.dom M) h) (slice.ok b) (= (Slice.len b) (+ n0 1)) (= (select ($at<Arr<Any>> (Slice.ptr b)) (+ (Slice.off b) n0)) val) (forall ((j Int)) (! (=> (and (trig j) (<= 0 j) (< j n0)) (= (select ($at<Arr<Any>> (Slice.ptr b)) (+ (Slice.off b) j)) (select (old ($at<Arr<Any>> (Slice.ptr b0))) (+ (Slice.off b0) j)))) :pattern ((trig j))))))
 //@   ensures[C06] nodup: (=> (not present) (forall ((j Int)) (! (=> (and (trig j) (<= 0 j) (< j n0)) (not (r_equiv R val (select ($at<Arr<Any>> (Slice.ptr b)) (+ (Slice.off b) j))))) :pattern ((trig j)))))
 //@   loop 1 invariant (forall ((j Int)) (! (=> (and (trig j) (<= 0 j) (< j $i)) (not (r_equiv R val (select ($at<Arr<Any>> (Slice.ptr bucket)) (+ (Slice.off bucket) j))))) :pattern ((trig j))))
+//
+// Remove: nothing changes when no member of the bucket of the value's hash is equivalent to it; otherwise
+// the first equivalent member is taken out of that bucket, the others keep their order, the bucket is
+// dropped when it becomes empty, and every other bucket is untouched.
+//@ func (set.Set[interface{}]).Remove[interface{}]
+//@   tags C03 C06 C20
+//@   let R (set.Set<Any>.rules s)
+//@   let mp (set.Set<Any>.vals s)
+//@   let M ($at<MapC<Int~Slice>> mp)
+//@   let M0 (old ($at<MapC<Int~Slice>> mp))
+//@   let h (r_hash R val)
+//@   let b0 (select (MapC<Int~Slice>.val M0) h)
+//@   let b (select (MapC<Int~Slice>.val M) h)
+//@   let had (select (MapC<Int~Slice>.dom M0) h)
+//@   let present (and had (exists ((j Int)) (! (and (trig j) (<= 0 j) (< j (Slice.len b0)) (r_equiv R val (select (old ($at<Arr<Any>> (Slice.ptr b0))) (+ (Slice.off b0) j)))) :pattern ((trig j)))))
+//@   ghost x Int
+//@   let first (and (trig x) (<= 0 x) (< x (Slice.len b0)) (r_equiv R val (select (old ($at<Arr<Any>> (Slice.ptr b0))) (+ (Slice.off b0) x))) (forall ((j Int)) (! (=> (and (trig j) (<= 0 j) (< j x)) (not (r_equiv R val (select (old ($at<Arr<Any>> (Slice.ptr b0))) (+ (Slice.off b0) j))))) :pattern ((trig j)))))
+//@   requires (and (not (= R nil.Any)) (MapC<Int~Slice>.ok M))
+//@   requires (=> had (slice.ok b0))
+//@   writes MapC<Int~Slice> mp
+//@   ensures[C03] absent: (=> (not present) (= M M0))
+//@   ensures[C03] others: (forall ((k Int)) (! (=> (not (= k h)) (and (= (select (MapC<Int~Slice>.dom M) k) (select (MapC<Int~Slice>.dom M0) k)) (= (select (MapC<Int~Slice>.val M) k) (select (MapC<Int~Slice>.val M0) k)))) :pattern ((select (MapC<Int~Slice>.val M) k)) :pattern ((select (MapC<Int~Slice>.dom M) k))))
+//@   ensures[C03] removed_dom: (=> (and had first) (= (select (MapC<Int~Slice>.dom M) h) (> (Slice.len b0) 1)))
+//@   ensures[C03] removed_len: (=> (and had first (> (Slice.len b0) 1)) (and (slice.ok b) (= (Slice.len b) (- (Slice.len b0) 1))))
+//@   ensures[C03] removed_before: (=> (and had first (> (Slice.len b0) 1)) (forall ((j Int)) (! (=> (and (trig j) (<= 0 j) (< j x)) (= (select ($at<Arr<Any>> (Slice.ptr b)) (+ (Slice.off b) j)) (select (old ($at<Arr<Any>> (Slice.ptr b0))) (+ (Slice.off b0) j)))) :pattern ((trig j)))))
+//@   ensures[C03] removed_after: (=> (and had first (> (Slice.len b0) 1)) (forall ((j Int)) (! (=> (and (trig j) (<= x j) (< j (- (Slice.len b0) 1))) (= (select ($at<Arr<Any>> (Slice.ptr b)) (+ (Slice.off b) j)) (select (old ($at<Arr<Any>> (Slice.ptr b0))) (+ (Slice.off b0) (+ j 1))))) :pattern ((trig j)))))
+//@   loop 1 invariant (forall ((j Int)) (! (=> (and (trig j) (<= 0 j) (< j $i)) (not (r_equiv R val (select ($at<Arr<Any>> (Slice.ptr bucket)) (+ (Slice.off bucket) j))))) :pattern ((trig j))))
